@@ -225,7 +225,7 @@ def run_case(case, ctx):
     s = bool((i // len(SHAPES)) % 2)
     w = rng.randint(1, 12)
     nf = rng.randint(0, w)
-    if i % 5 == 4:
+    if (i // 100) % 5 == 4 or (i // 7) % 11 == 3:      # (independent of the shape digit i % 10, the signedness digit and the element-class digit)
         nf = rng.choice([rng.randint(-8, -1), rng.randint(w + 1, w + 8), w - (1 if s else 0) + 1])   # negative fraction / negative integer length
     lo, hi = R.code_range(s, w)
     ecls = ('all-lo', 'all-hi', 'mixed', 'random', 'random')[(i // 20) % 5]
@@ -312,7 +312,7 @@ def run_case(case, ctx):
     # dot / matmul with mixed signedness
     s2 = bool(rng.random() < 0.5)
     w2 = rng.randint(1, 12)
-    nf2 = rng.randint(0, w2) if i % 5 != 4 else rng.randint(-8, w2 + 8)
+    nf2 = rng.randint(0, w2) if (i // 7) % 5 != 4 else rng.randint(-8, w2 + 8)
     lo2, hi2 = R.code_range(s2, w2)
     if len(shape) == 1:
         shp2 = shape
